@@ -98,9 +98,12 @@ Proof. exact fetcher_response_request. Qed.
        at random among ready channels), each within lat, before it takes the pass         [fair_run_k]
      - the announces cache has room for every batch at the moment it is processed
        (table size + 2 * batch <= HashLimit at each ENotify), so nothing is evicted        [cap_ok]
-     - every announcement of the item in the trace is younger than ForgetTimeout until the bound
-       (the loop forgets an item by its OLDEST recorded announcement, so all of them count)
-     - afterwards the item is reported interesting at every pass and is never reported received
+     - the announce records of the item that are IN THE TABLE when the announcement arrives, this
+       announcement, and every later one are younger than ForgetTimeout until the bound [young_inv on the
+       state before the announcement] (the loop forgets an item by its OLDEST recorded announcement, so
+       all records held count; records of earlier lives of the item, received or forgotten since, are
+       gone and do not - C16_young_if_absent)
+     - until the bound the item is reported interesting at every pass and is never reported received
      - the trace goes on beyond the bound
    Then a request for the item is EMITTED BY THE LOOP (handed to parallelTasks.Enqueue) at some t' with
         t <= t' <= t + 2*ArriveTimeout - GatherSlack + (k + 2)*lat.
@@ -120,9 +123,11 @@ Theorem C16_liveness : forall c lat k t0 pre t peer ids atime interested susp sc
   fair_run_k c lat k (init t0) t0 0 tr ->
   In id interested ->
   cap_ok c (init t0) tr ->
-  (forall now p i a int su sc, In (now, ENotify p i a int su sc) tr -> In id int -> (Tend - a <= c_forget c)%Z) ->
-  (forall now i ch sc, In (now, ETimer i ch sc) post -> In id i) ->
-  (forall now l, In (now, EReceived l) post -> ~ In id l) ->
+  young_inv c id Tend (fst (run true c (init t0) pre)) ->
+  (Tend - atime <= c_forget c)%Z ->
+  (forall now p i a int su sc, In (now, ENotify p i a int su sc) post -> In id int -> (Tend - a <= c_forget c)%Z) ->
+  (forall now i ch sc, In (now, ETimer i ch sc) post -> (now <= Tend)%Z -> In id i) ->
+  (forall now l, In (now, EReceived l) post -> (now <= Tend)%Z -> ~ In id l) ->
   (exists now ev, In (now, ev) post /\ (Tend < now)%Z) ->
   exists t' p l, In (t', (p, l)) (snd (run true c (init t0) tr)) /\ In id l /\ (t <= t' <= Tend)%Z.
 Proof. exact fetcher_liveness. Qed.
@@ -135,13 +140,20 @@ Theorem C16_liveness_unsuspend : forall c lat k t0 pre t peer ids atime interest
   let Tend := (t + 2 * c_arrive c - c_slack c + (Z.of_nat k + 2) * lat)%Z in
   clock_ok t0 tr -> fair_run_k c lat k (init t0) t0 0 tr -> In id interested ->
   cap_ok c (init t0) tr ->
-  (forall now p i a int su sc, In (now, ENotify p i a int su sc) tr -> In id int -> (Tend - a <= c_forget c)%Z) ->
-  (forall now i ch sc, In (now, ETimer i ch sc) post -> In id i) ->
-  (forall now l, In (now, EReceived l) post -> ~ In id l) ->
+  young_inv c id Tend (fst (run true c (init t0) pre)) ->
+  (Tend - atime <= c_forget c)%Z ->
+  (forall now p i a int su sc, In (now, ENotify p i a int su sc) post -> In id int -> (Tend - a <= c_forget c)%Z) ->
+  (forall now i ch sc, In (now, ETimer i ch sc) post -> (now <= Tend)%Z -> In id i) ->
+  (forall now l, In (now, EReceived l) post -> (now <= Tend)%Z -> ~ In id l) ->
   (exists now ev, In (now, ev) post /\ (Tend < now)%Z) ->
   exists t' p l, In (t', (p, l)) (snd (run true c (init t0) tr)) /\ In id l /\
     (t <= t' <= Z.max t t_u + 2 * c_arrive c - c_slack c + (Z.of_nat k + 2) * lat)%Z.
 Proof. exact fetcher_liveness_unsuspend. Qed.
+
+(* the state hypothesis of C16_liveness is trivially true for an item that is not in the table when it
+   is announced (never announced before, or received / forgotten since) *)
+Theorem C16_young_if_absent : forall c id Tend st, ~ In id (map e_key (ann st)) -> young_inv c id Tend st.
+Proof. exact young_inv_absent. Qed.
 
 (* The scheduler that generates the model's own log of a script (model/FetcherSim.v, evaluated against
    spec_check on every case) is not a second model: the state it ends in is the state [run] reaches on
@@ -213,6 +225,7 @@ Print Assumptions C16_liveness_fetching_was_requested_partial.
 Print Assumptions C16_liveness_response_partial.
 Print Assumptions C16_liveness.
 Print Assumptions C16_liveness_unsuspend.
+Print Assumptions C16_young_if_absent.
 Print Assumptions C16_scheduler_is_run.
 Print Assumptions C16_workers_run_at_most_once.
 Print Assumptions C16_workers_nothing_after_stop.
